@@ -93,14 +93,54 @@ CLAIMS = {
 }
 
 
+# what was added to a check after its entry above was written (rounds 2-3 of the seeded changes, DESIGN 11.7-11.10)
+ADDENDA = {
+    "C01": "Also: hostile PAKE bodies (malformed, off-curve, reflected) end in WrongPasswordError; several sessions alive in one process.",
+    "C02": "Also: relabelled_queued_before_pake_rejected; hold/release/dropmsg schedules; oracle clause relabelled-accepted-as-valid.",
+    "C03": "Also: buffers_independent (dilate-N vs numbered phases), closing_delivers_nothing, all 18 Boss outputs pinned; close/self-close with parked phases.",
+    "C05": "Also: config_cwd_is_process_cwd / dest_is_child_of_process_cwd (entry point builds the Config; $PWD never consulted).",
+    "C07": "Also: listener_lifetime, port_closed_after_success / _once_fired / _by_deadline; late arrivals after every outcome.",
+    "C08": "Environment includes hostile mailbox participants (DESIGN 11.7).",
+    "C09": "Environment includes hostile mailbox participants (DESIGN 11.7).",
+    "C10": "Also: parked-record queue and per-subchannel pending data in the model (ARQ invariant over parked + in flight + unsent), per-step L4 theorems; second world with the real DilatedConnectionProtocol/Connector turn and Noise chunk boundaries. Partial: global L4 composition stated as a def + per-step theorems.",
+    "C11": "Also: per-direction reachability (one_direction_reachable; reconverge_no_trap in all three networks).",
+    "C12": "Also: explicit 32-bit and chunk-size boundary corpus through whole connections.",
+    "C13": "Also: real link layer in the world; parked_open_data_close, watermark_survives_connection_loss, resent_burst_ignored / resent_record_ignored; generated flags for FIFO drain and watermark.",
+    "C14": "Environment includes hostile mailbox participants: unusable PAKE bodies and undecryptable bytes under any phase from a third side, at any time (DESIGN 11.7); this exposed the defect repaired by fix c4870d9.",
+    "C15": "Also: subchannel lifecycle (generated SubChannel table) in the Inbound model: resume_forwarded_in_every_state, local_close_keeps_pause, plain-forwarder flags.",
+    "C16": "Also: late timer firing (`stall`) — responsive_never_dropped for all stall sequences; per-connection loss reports; second world with the real Connector/DilatedConnectionProtocol.",
+    "C17": "Also: timer handle state (none/pending/fired) and timer_handle_safe; silent-peer close corpus with the real DelayedCall.",
+    "C18": "Environment includes hostile mailbox participants (DESIGN 11.7).",
+    "C20": "Also: hostname classes (IDN, non-IDNA, long/empty labels, NUL, lone surrogates) through the real Twisted endpoints; describe_hint_obj pinned.",
+}
+EVERY = (" Every check also carries WV.Props.Common.instances_do_not_share_state (no mutable class-level container is mutated through self "
+         "anywhere under src/wormhole; generated list) and, in the thorough tier, a leanchecker replay of the property's import closure.")
+
+
+def theorem_count(pid):
+    try:
+        ev = json.load(open(os.path.join(ROOT, "evidence", pid + ".json")))
+        return len(ev["coverage"]["theorems"])
+    except Exception:
+        return None
+
+
 def main():
+    import re
     props = [json.loads(l) for l in open(os.path.join(ROOT, "properties.jsonl"))]
     checks = []
     for p in props:
         pid = p["id"]
         if pid not in CLAIMS:
             continue
-        c = CLAIMS[pid]
+        c = dict(CLAIMS[pid])
+        n = theorem_count(pid)
+        if n:
+            # the number of property theorems is whatever the last run of the check audited
+            c["text"] = re.sub(r"^\d+ ((?:kernel-only )?Lean theorems)", lambda m: f"{n} " + m.group(1), c["text"])
+        if pid in ADDENDA:
+            c["text"] = c["text"] + " " + ADDENDA[pid]
+        c["note"] = c["note"] + EVERY
         checks.append({
             "property_id": pid,
             "quick_cmd": f"./check {pid} --tier quick",
